@@ -177,18 +177,18 @@ fn find_fn<'a>(file: &'a syn::File, spec: &str) -> Vec<FoundFn<'a>> {
 /// `helper(..)`. The inlined text is put on the line of the call, so every line number of the file stays what it is in the repository.
 /// Returns the rewritten file (or None when nothing was inlined) and the byte ranges of the inlined helpers in the ORIGINAL file.
 fn inline_helpers(orig: &SourceFile, func: &str, under_contract: &dyn Fn(&str) -> bool, notes: &mut Vec<String>) -> Option<(SourceFile, Vec<(usize, usize)>)> {
-    struct Helper { sig: syn::Signature, block: syn::Block, span: (usize, usize), impl_ty: Option<String> }
+    struct Helper { sig: syn::Signature, block: syn::Block, span: (usize, usize), impl_ty: Option<String>, nested: bool }
     fn collect(src: &SourceFile, items: &[syn::Item], out: &mut BTreeMap<String, Vec<Helper>>) {
         for it in items {
             match it {
                 syn::Item::Fn(f) => {
-                    out.entry(f.sig.ident.to_string()).or_default().push(Helper { sig: f.sig.clone(), block: (*f.block).clone(), span: src.range(f.span()), impl_ty: None });
+                    out.entry(f.sig.ident.to_string()).or_default().push(Helper { sig: f.sig.clone(), block: (*f.block).clone(), span: src.range(f.span()), impl_ty: None, nested: false });
                 }
                 syn::Item::Impl(im) if im.trait_.is_none() => {
                     let ty = type_last_ident(&im.self_ty);
                     for ii in &im.items {
                         if let syn::ImplItem::Fn(f) = ii {
-                            out.entry(f.sig.ident.to_string()).or_default().push(Helper { sig: f.sig.clone(), block: f.block.clone(), span: src.range(f.span()), impl_ty: ty.clone() });
+                            out.entry(f.sig.ident.to_string()).or_default().push(Helper { sig: f.sig.clone(), block: f.block.clone(), span: src.range(f.span()), impl_ty: ty.clone(), nested: false });
                         }
                     }
                 }
@@ -244,8 +244,15 @@ fn inline_helpers(orig: &SourceFile, func: &str, under_contract: &dyn Fn(&str) -
         collect(src, &src.ast.items, &mut helpers);
         let found = find_fn(&src.ast, func);
         if found.len() != 1 { break; }
+        // functions declared inside the body are helpers too (they shadow module-level functions of the same name)
+        for st in &found[0].block.stmts {
+            if let Stmt::Item(syn::Item::Fn(f)) = st {
+                helpers.insert(f.sig.ident.to_string(), vec![Helper { sig: f.sig.clone(), block: (*f.block).clone(), span: src.range(f.span()), impl_ty: None, nested: true }]);
+            }
+        }
         let fit = |name: &str| -> bool {
-            if name == fname || under_contract(name) { return false; }
+            let nested = helpers.get(name).map(|v| v.len() == 1 && v[0].nested).unwrap_or(false);
+            if name == fname || (!nested && under_contract(name)) { return false; }
             match helpers.get(name) {
                 Some(v) if v.len() == 1 => {
                     let h = &v[0];
@@ -285,13 +292,54 @@ fn inline_helpers(orig: &SourceFile, func: &str, under_contract: &dyn Fn(&str) -
         let line = src.line_of(cs);
         // the helper's range in the ORIGINAL file (S-cover: its lock sites are verified as part of the caller)
         let oh = { let mut oh = BTreeMap::new(); collect(orig, &orig.ast.items, &mut oh); oh };
-        if let Some(v) = oh.get(&name) { if v.len() == 1 { regions.push(v[0].span); } }
+        if !h.nested { if let Some(v) = oh.get(&name) { if v.len() == 1 { regions.push(v[0].span); } } }
         match SourceFile::from_text(&orig.rel, text) {
             Some(nf) => { notes.push(format!("R19 call to helper `{}` at {}:{} replaced by its body (helper not under contract)", name, orig.rel, line)); cur = Some(nf); }
             None => break,
         }
     }
+    // a function declared inside the body has no contract: once its calls are inlined its text is blanked (line structure kept); if a call
+    // is left, the body cannot be verified modularly (the callee's effect would be unknown), which is an unsupported construct, not a failure
+    loop {
+        let src: &SourceFile = cur.as_ref().unwrap_or(orig);
+        let found = find_fn(&src.ast, func);
+        if found.len() != 1 { break; }
+        let mut item: Option<(String, (usize, usize))> = None;
+        for st in &found[0].block.stmts {
+            if let Stmt::Item(syn::Item::Fn(f)) = st { item = Some((f.sig.ident.to_string(), src.range(f.span()))); break; }
+        }
+        let (name, (is, ie)) = match item { Some(x) => x, None => break };
+        struct Calls<'n> { name: &'n str, n: usize }
+        impl<'n, 'ast> Visit<'ast> for Calls<'n> {
+            fn visit_expr_path(&mut self, p: &'ast syn::ExprPath) { if p.path.is_ident(self.name) { self.n += 1; } }
+            fn visit_item_fn(&mut self, _: &'ast syn::ItemFn) {}
+        }
+        let mut c = Calls { name: &name, n: 0 };
+        c.visit_block(found[0].block);
+        if c.n > 0 {
+            die(&format!("{}: function `{}` declared inside {} is called in a way that cannot be inlined (no contract for it)", orig.rel, name, func));
+        }
+        let blank: String = src.text[is..ie].chars().map(|ch| if ch == '\n' { '\n' } else { ' ' }).collect();
+        let text = format!("{}{}{}", &src.text[..is], blank, &src.text[ie..]);
+        match SourceFile::from_text(&orig.rel, text) {
+            Some(nf) => { notes.push(format!("R19 function `{}` declared inside {} removed after inlining its calls", name, func)); cur = Some(nf); }
+            None => break,
+        }
+    }
     cur.map(|c| (c, regions))
+}
+
+/// is the value of this closure body a `bool` for syntactic reasons alone?
+fn is_bool_expr(e: &Expr) -> bool {
+    match e {
+        Expr::Paren(p) => is_bool_expr(&p.expr),
+        Expr::Unary(u) => matches!(u.op, syn::UnOp::Not(_)),
+        Expr::Binary(b) => matches!(b.op, syn::BinOp::Eq(_) | syn::BinOp::Ne(_) | syn::BinOp::Lt(_) | syn::BinOp::Le(_) | syn::BinOp::Gt(_) | syn::BinOp::Ge(_) | syn::BinOp::And(_) | syn::BinOp::Or(_)),
+        Expr::Lit(l) => matches!(l.lit, syn::Lit::Bool(_)),
+        Expr::MethodCall(m) => { let n = m.method.to_string(); n.starts_with("is_") || n == "contains" || n == "eq" || n == "ne" }
+        Expr::Block(b) => b.block.stmts.len() == 1 && matches!(&b.block.stmts[0], Stmt::Expr(x, None) if is_bool_expr(x)),
+        _ => false,
+    }
 }
 
 fn norm_ws(s: &str) -> String {
@@ -322,6 +370,8 @@ struct Rules {
     path: BTreeMap<String, String>,
     /// replacement for closure literals that have no CLOSURE directive (opaque value); None = exit 2
     default_closure: Option<String>,
+    /// R21: name of the shim that `X.retain(|p| E)` is rewritten to (None = `retain` is left alone)
+    retain_shim: Option<String>,
 }
 
 #[derive(Default)]
@@ -371,6 +421,8 @@ struct Rewriter<'a> {
     guard_scopes: Vec<Vec<(String, String)>>,
     /// names of the method calls enclosing the expression being visited
     call_stack: Vec<String>,
+    /// closures kept as code whose value the verifier cannot see (no postcondition could be stated for them)
+    unmodelled_closures: usize,
 }
 
 /// if `e` is `<recv>.lock()` / `.try_lock()` possibly followed by `.expect(..)` / `.unwrap()`, the lock's receiver key
@@ -422,6 +474,26 @@ fn recv_key(e: &Expr) -> String {
 }
 
 impl<'a> Rewriter<'a> {
+    /// the closure's value becomes its postcondition: `|p| E` -> `|p| -> (keep__: bool) ensures keep__ == (E) { E }` (E must be usable in
+    /// spec mode; if it is not, the body does not compile in the dialect and the function is stubbed - never a wrong verdict)
+    fn annotate_bool_closure(&mut self, c: &syn::ExprClosure) {
+        let (_, pe) = self.src.range(c.or2_token.span());
+        let (bs, be) = self.src.range(c.body.span());
+        let mut spec_text = norm_ws(&self.src.text[bs..be]);
+        for (k, v) in &self.spec.rules.path { spec_text = spec_text.replace(k.as_str(), v.as_str()); }
+        // R21b: when the parameters are mutable references (the driver learns this from the verifier's diagnostic and asks again), the
+        // postcondition speaks about their value at entry: `*p` -> `*old(p)`
+        if std::env::var("VEXTRACT_OLDPARAMS").map(|v| v.split(';').any(|f| f == self.spec.func)).unwrap_or(false) {
+            for inp in c.inputs.iter() {
+                if let syn::Pat::Ident(pi) = inp {
+                    let name = pi.ident.to_string();
+                    spec_text = spec_text.replace(&format!("*{}", name), &format!("*old({})", name));
+                }
+            }
+        }
+        self.edit(pe, bs, format!(" -> (keep__: bool) ensures keep__ == ({}) {{ ", spec_text), 0);
+        self.edit(be, be, " }".to_string(), 1);
+    }
     fn edit(&mut self, start: usize, end: usize, text: String, prio: i32) {
         self.edits.push(Edit { start, end, text, prio });
     }
@@ -716,6 +788,21 @@ impl<'a, 'ast> Visit<'ast> for Rewriter<'a> {
                             self.spec.func
                         )),
                     }
+                } else if name == "retain" && m.args.len() == 1 && self.spec.rules.retain_shim.is_some() && matches!(&m.args[0], Expr::Closure(c) if c.inputs.len() == 1 && c.capture.is_none() && matches!(c.output, syn::ReturnType::Default)) {
+                    // R21: `X.retain(|p| E)` -> `X.shim(|p| -> (keep__: bool) ensures keep__ == (E) { E })`: the predicate stays the
+                    // repository's text, and its value becomes visible to the contract of the shim
+                    if let Expr::Closure(c) = &m.args[0] {
+                        let shim = self.spec.rules.retain_shim.clone().unwrap();
+                        let (rs, re) = self.src.range(m.receiver.span());
+                        let (cs, _) = self.src.range(c.span());
+                        let (_, pe) = self.src.range(c.or2_token.span());
+                        let (ms, me) = self.src.range(m.method.span());
+                        self.edit(ms, me, shim.clone(), 0);
+                        let _ = (re, pe);
+                        self.annotate_bool_closure(c);
+                        self.consumed_closures.push(cs);
+                        self.notes.push(format!("R21 retain at {}:{} rewritten to {} with the predicate's value as the closure's postcondition", self.src.rel, self.src.line_of(rs), shim));
+                    }
                 } else if let Some(arg) = self.spec.rules.call.get(&name) {
                     let arg = self.expand(arg);
                     let (_, pe) = self.src.range(m.paren_token.span.close());
@@ -727,12 +814,21 @@ impl<'a, 'ast> Visit<'ast> for Rewriter<'a> {
                 if let Expr::Path(p) = &*c.func {
                     let full = p.path.segments.iter().map(|s| s.ident.to_string()).collect::<Vec<_>>().join("::");
                     let last = p.path.segments.last().map(|s| s.ident.to_string()).unwrap_or_default();
-                    if full == "mem::drop" && c.args.len() == 1 {
+                    if (full == "mem::drop" || full == "std::mem::drop" || full == "drop") && c.args.len() == 1 {
                         if let Expr::Path(ap) = &c.args[0] {
                             if let Some(id) = ap.path.get_ident() {
                                 let id = id.to_string();
+                                let was_guard = self.guard_scopes.iter().any(|sc| sc.iter().any(|(n, _)| *n == id));
                                 for sc in self.guard_scopes.iter_mut() {
                                     sc.retain(|(n, _)| *n != id);
+                                }
+                                if was_guard {
+                                    // R23: dropping a lock guard by name ends the critical section and does nothing else; the guards of the
+                                    // lock shims are `&mut` borrows, and a generic `drop<T>(T)` would let the verifier assume the callee
+                                    // may still write through it
+                                    let (fs, fe) = self.src.range(p.path.span());
+                                    self.edit(fs, fe, "drop_guard__".to_string(), 0);
+                                    self.notes.push(format!("R23 drop of guard `{}` at {}:{}", id, self.src.rel, self.src.line_of(fs)));
                                 }
                             }
                         }
@@ -811,6 +907,14 @@ impl<'a, 'ast> Visit<'ast> for Rewriter<'a> {
                                 self.edit(ws, we, format!("unused{}__", k), 0);
                                 self.notes.push(format!("R18 closure #{} parameter `_` named", n));
                             }
+                        }
+                        let predicate_position = matches!(self.call_stack.last().map(|s| s.as_str()), Some("filter"));
+                        if matches!(c.output, syn::ReturnType::Default) && (predicate_position || is_bool_expr(&c.body)) {
+                            self.annotate_bool_closure(c);
+                            self.notes.push(format!("R21 closure #{} at {}:{}: its (boolean) value is stated as its postcondition", n, self.src.rel, self.src.line_of(cs)));
+                        } else {
+                            self.unmodelled_closures += 1;
+                            self.notes.push(format!("closure #{} at {}:{} has no postcondition: its value is unknown to the verifier (failures in this function are not believed)", n, self.src.rel, self.src.line_of(cs)));
                         }
                         visit::visit_expr(self, e);
                         return;
@@ -1110,6 +1214,9 @@ fn main() {
             let (_, v) = split_arrow(r);
             unit_rules.default_closure = Some(v);
             ln += 1;
+        } else if let Some(r) = d.strip_prefix("UNIT-RETAIN ") {
+            unit_rules.retain_shim = Some(r.trim().to_string());
+            ln += 1;
         } else if let Some(r) = d.strip_prefix("UNIT-PATH ") {
             let (k, v) = split_arrow(r);
             unit_rules.path.insert(k, v);
@@ -1399,6 +1506,7 @@ fn main() {
                 skip_ranges: vec![],
                 guard_scopes: vec![],
                 call_stack: vec![],
+                unmodelled_closures: 0,
             };
             let (rs, re);
             if let Some(b) = region_block {
@@ -1451,6 +1559,9 @@ fn main() {
                 die(&format!("{} does not compile in the verifier's dialect on this tree (see the first run)", spec.func));
             }
             out.push(&format!("{}{{ // BODY-OF {}", indent, spec.func), &format!("tmpl:{}", spec.tmpl_line));
+            if rw.unmodelled_closures > 0 {
+                out.push(&format!("\n        // UNMODELLED-CLOSURE {}", spec.func), &format!("tmpl:{}", spec.tmpl_line));
+            }
             if std::env::var("VEXTRACT_TWIN").is_ok() {
                 out.push(&format!("\n        assert(false); // TWIN {}", spec.func), &format!("tmpl:{}", spec.tmpl_line));
             }
